@@ -464,7 +464,7 @@ fn run_case<T: Elem, U: Elem>(n: usize, extra_cap: usize, script: &[u64]) -> (Ve
     }
     // ---- the infallible wrapper convert_vec_in_place on the same script (when no item returns Err): same
     // outcome, same outputs, same calls and drops as try_convert_vec_in_place
-    if !refused && !script.iter().any(|c| c / 2 == 2) {
+    if !script.iter().any(|c| c / 2 == 2) {
         let first_log = log.clone();
         LOG.with(|l| l.borrow_mut().clear());
         CREATED_U.with(|l| l.borrow_mut().clear());
@@ -476,6 +476,9 @@ fn run_case<T: Elem, U: Elem>(n: usize, extra_cap: usize, script: &[u64]) -> (Ve
         for i in 0..n {
             v2.push(T::make(i as u64));
         }
+        let in_ptr2 = v2.as_ptr() as usize;
+        let in_cap2 = v2.capacity();
+        let mut wrapper_alloc: Option<String> = None;
         let res2 = catch_unwind(AssertUnwindSafe(|| {
             truc_runtime::convert::convert_vec_in_place::<T, U, _>(v2, |t, u| match scripted::<T, U>(t, u) {
                 Ok(r) => r,
@@ -488,6 +491,11 @@ fn run_case<T: Elem, U: Elem>(n: usize, extra_cap: usize, script: &[u64]) -> (Ve
             Ok(out) => {
                 let mut e = vec![0, out.len() as u64];
                 e.extend(out.iter().map(|u| u.id()));
+                // the wrapper reuses the input's allocation like the fallible function (also for an empty input
+                // with spare capacity)
+                if std::mem::size_of::<T>() != 0 && (out.capacity() != in_cap2 || (in_cap2 != 0 && out.as_ptr() as usize != in_ptr2)) {
+                    wrapper_alloc = Some(format!("C08: the result of convert_vec_in_place does not reuse the input's allocation (ptr {:#x} cap {} -> ptr {:#x} cap {})", in_ptr2, in_cap2, out.as_ptr() as usize, out.capacity()));
+                }
                 let mark = LOG.with(|l| l.borrow().len());
                 drop(out);
                 LOG.with(|l| l.borrow_mut().truncate(mark));
@@ -495,14 +503,24 @@ fn run_case<T: Elem, U: Elem>(n: usize, extra_cap: usize, script: &[u64]) -> (Ve
             }
             Err(p) => match p.downcast_ref::<u32>() {
                 Some(x) => vec![2, *x as u64],
-                None => vec![3, 0],
+                None => {
+                    let msg = p.downcast_ref::<String>().cloned().or_else(|| p.downcast_ref::<&str>().map(|s| s.to_string())).unwrap_or_default();
+                    if msg.contains("size_of") || msg.contains("align_of") || msg.contains("assertion") {
+                        vec![4]
+                    } else {
+                        vec![3, 0]
+                    }
+                }
             },
         };
         let log2: Vec<Ev> = LOG.with(|l| l.borrow().iter().filter(|e| !matches!(e, Ev::Free)).cloned().collect());
         let log1: Vec<Ev> = first_log.iter().filter(|e| !matches!(e, Ev::Free)).cloned().collect();
         let k = enc.iter().position(|x| *x == 99).unwrap_or(enc.len());
+        if let Some(m) = wrapper_alloc {
+            oracle.push(m);
+        }
         if enc2[..] != enc[..k] {
-            oracle.push(format!("{}: convert_vec_in_place gives {:?} where try_convert_vec_in_place gives {:?}", if enc[0] == 0 { "C08" } else { "C09" }, enc2, &enc[..k]));
+            oracle.push(format!("{}: convert_vec_in_place gives {:?} where try_convert_vec_in_place gives {:?}", if enc[0] == 0 { "C08" } else if refused { "C10" } else { "C09" }, enc2, &enc[..k]));
         } else if log2 != log1 {
             oracle.push(format!("{}: convert_vec_in_place makes other calls / drops than try_convert_vec_in_place on the same script", if enc[0] == 0 { "C08" } else { "C09" }));
         }
